@@ -11,6 +11,9 @@ from props.dockcommon import DockProp
 from props.c14 import P as C14
 
 
+ZERO_TIME_NS = -62135596800 * 10**9
+
+
 class P(DockProp):
     id = "C18"
     race = True          # thorough tier: the same requests are also run on a harness built with -race (supporting evidence, not a proof)
@@ -36,6 +39,8 @@ class P(DockProp):
             labels = {"svc": rng.choice(["a", "b", "c"]), "tier": rng.choice(["x", "y"])}
             if rng.random() < 0.4:
                 labels.update(rng.choice([{"com.example.role": "dotted", "com_example_role": "underscored"}, {"a-b": "dash", "a.b": "dot", "a b": "space"}]))
+            if rng.random() < 0.15:
+                labels.update({"traefik.http.routers.r%d.rule" % j: "Host(`h%d`)" % j for j in range(rng.randint(22, 30))})      # a compose / traefik style container: > 30 labels in all
             ctrs.append(Ctr(rng, k, name=names[k], labels=labels))
         # heavy ties: few distinct timestamps shared by all containers
         stamps = [T0 + j * S for j in range(rng.randint(1, 3))]
@@ -43,6 +48,10 @@ class P(DockProp):
             n = rng.randint(1, 4)
             tss = sorted(rng.choice(stamps) for _ in range(n))
             c.recs = [(ts, B("%s:%d v=%s" % (c.id, k, rng.choice(vals)))) for k, ts in enumerate(tss)]
+            if rng.random() < 0.15:
+                # a message whose time the daemon did not record: the zero time 0001-01-01T00:00:00Z (a pure function of the log bytes)
+                # (as a uint64 nanosecond count it is larger than every ordinary instant: placed last, the container's log stays time-ordered)
+                c.recs.append((ZERO_TIME_NS, B("%s:z v=%s" % (c.id, rng.choice(vals)))))
         perms = [list(p) for p in itertools.permutations(range(nc))]
         if tier != "thorough":
             rng.shuffle(perms)
